@@ -132,25 +132,32 @@ def write_mat_single(path, stimulus_files, utv):
                    'rdmutv': np.asarray(utv, dtype=float).reshape(1, -1)})
 
 
-def write_mat_multi(path, participants, stimulus_files, utvs, interleaved=False):
-    """one rdmutv_<name> and one stimuli_<name> variable per participant ('-' -> '_'), written
-    in the order given (block-wise like the Meadows download, or interleaved)"""
+def write_mat_multi(path, participants, stimulus_files, utvs, interleaved=False, utv_order=None):
+    """one rdmutv_<name> and one stimuli_<name> variable per participant ('-' -> '_').  The
+    stimuli_* variables are written in the order of `participants`, the rdmutv_* variables in
+    the order `utv_order` (indices into participants, default: the same order) - the two groups
+    of variables are paired by NAME, their positions in the file are independent.  Block-wise
+    (all rdmutv_* first, like the Meadows download) or interleaved."""
     from scipy.io import savemat
     var = [p.replace('-', '_') for p in participants]
+    if utv_order is None:
+        utv_order = list(range(len(participants)))
+    stim = [('stimuli_' + v, np.array(list(stimulus_files))) for v in var]
+    utv = [('rdmutv_' + var[i], np.asarray(utvs[i], dtype=float).reshape(1, -1)) for i in utv_order]
     content = {}
     if interleaved:
-        for v, u in zip(var, utvs):
-            content['stimuli_' + v] = np.array(list(stimulus_files))
-            content['rdmutv_' + v] = np.asarray(u, dtype=float).reshape(1, -1)
+        for (ks, vs), (ku, vu) in zip(stim, utv):
+            content[ks] = vs
+            content[ku] = vu
     else:
-        for v, u in zip(var, utvs):
-            content['rdmutv_' + v] = np.asarray(u, dtype=float).reshape(1, -1)
-        for v in var:
-            content['stimuli_' + v] = np.array(list(stimulus_files))
+        for ku, vu in utv:
+            content[ku] = vu
+        for ks, vs in stim:
+            content[ks] = vs
     savemat(path, content)
 
 
-def write_json_tree(path, tasks):
+def write_json_tree(path, tasks, rdm_first=False):
     """tasks: list of dicts {'name', 'task_type', 'stimuli': [names] , 'rdm': [values]} (rdm
     and stimuli only used for multiarrange tasks)"""
     out = []
@@ -164,6 +171,10 @@ def write_json_tree(path, tasks):
         else:
             entry['isInfo'] = True
         out.append(entry)
+    if rdm_first:
+        # the same content with the dissimilarities stored before the stimulus list of each task
+        out = [dict([(k, e[k]) for k in ('rdm',) if k in e] + [(k, v) for k, v in e.items() if k != 'rdm'])
+               for e in out]
     with open(path, 'w', encoding='utf-8') as fh:
         json.dump({'token': None, 'tasks': out}, fh)
 
